@@ -316,7 +316,7 @@ def make_jobs(tier, seed, build):
     nmax = 2 if tier == "quick" else 3
     for gname in GRAMMARS:
         g = CORPUS[gname]
-        for shape in tok.all_shapes_by_words(nmax, g.decl):
+        for shape in tok.all_shapes_by_words(nmax, g.decl, full_upto=2):
             if "dd" in shape:
                 continue
             for typed in TYPED:
@@ -362,7 +362,7 @@ def finish(results, jobs, build, out, tier, seed, wall):
         "queries": {"total": st["queries"], "sat": st["sat"], "unsat": st["unsat"], "unknown": st["unknown"]},
         "solver_time_s": st["solver_s"],
         "outcome_classes": fw.merge_counts(results, "classes"),
-        "bounds": {"prefix_words": "0..=%d symbolic words (no `--`)" % nmax, "typed_words": TYPED, "grammars": GRAMMARS},
+        "bounds": {"largest_size": (tok.REDUCED_NOTE if tier != "quick" else "all forms"), "prefix_words": "0..=%d symbolic words (no `--`)" % nmax, "typed_words": TYPED, "grammars": GRAMMARS},
         "jobs": len(jobs),
         "functions_encoded": sorted(fw.merge_counts(results, "fn_hits")),
         "models_used": fw.merge_counts(results, "models_used"),
